@@ -345,6 +345,27 @@ def precision_replay(chk, name, api, sg, res, args, view, res_act=None):
                     pass
             scored.sort(key=lambda x: -x[0])
             cands += [env for _, _, env in scored[:4]]
+        if deltas:
+            # narrowing to double somewhere inside: parameter sets/points at which the narrowed intermediates weigh most in the result
+            # (first-order effect of a relative perturbation 2^-54 of every narrowed value; moderate magnitudes only, so that the
+            # long double roundoff of the formula itself -- e.g. of a trigonometric argument -- stays far below the 2^-56 limit)
+            pert = tm.subst([res], {d: tm.const(Fraction(1, 2 ** 54)) for d in deltas})[0]
+            scored = []
+            for k in range(250):
+                env = {n_: Fraction(2) ** rng.randint(-2, 2) * Fraction(rng.randint(17, 63), 32) + Fraction(1, 3 * (7 + i)) for i, n_ in enumerate(sorted(allnames))}
+                e = {n_: mp.mpf(q.numerator) / mp.mpf(q.denominator) for n_, q in env.items()}
+                for a in args:
+                    if a.sort != 'R':
+                        e[a.p] = 1
+                try:
+                    va, vb = tm.evalf([res0, pert], e, mp)
+                    M_ = pde.magnitude(res0, e) + abs(va)
+                    if mp.isfinite(va) and mp.isfinite(vb) and M_ > 0:
+                        scored.append((abs(va - vb) / M_, k, env))
+                except Exception:
+                    pass
+            scored.sort(key=lambda x: -x[0])
+            cands += [env for _, _, env in scored[:12]]
         for k, env in enumerate(cands):
             envs.append(env)
             for n_ in names:
